@@ -62,7 +62,7 @@ pub fn check_one(set: &ModuleSet, prop: &'static str, origin: &str, shrunk: &Mut
         rep.count(k, *v);
     }
     rep.nontrivial.insert(hash_of(set));
-    if rep.samples.len() < 3 && rep.evaluations % 211 == 7 {
+    if hash_of(set) % 40 == 0 {
         rep.sample(json!({"origin": origin, "asn1": one_line(&set.render().text, 500), "observations": j.counters}));
     }
     let mine: Vec<&Disc> = j.discs.iter().filter(|d| d.prop == prop).collect();
